@@ -68,7 +68,7 @@ def script_from_state(m, sc, v, trail=None):
             pass
     specs = {s.idx: s for s in cfg['htlcs']}
     steps = []
-    first = True
+    pending_delivery = set()
     tl = trail.to_list() if trail is not None else []
     for stp in tl:
         lab = stp['step']
@@ -90,7 +90,14 @@ def script_from_state(m, sc, v, trail=None):
             continue
         mm = re.match(r'^deliver htlc(\d+)$', lab)
         if mm:
+            # natively a handler starts running as soon as it is spawned: deliver at the model's first poll
+            pending_delivery.add(int(mm.group(1)))
+            continue
+        mm = re.match(r'^poll htlc(\d+)#', lab)
+        if mm and int(mm.group(1)) in pending_delivery:
+            pending_delivery.discard(int(mm.group(1)))
             steps.append(htlc_op(sc, specs[int(mm.group(1))], mdl))
+            steps.append({'op': 'settle'})
             continue
         mm = re.match(r'^lin (\w+)#(\d+)$', lab)
         if mm:
@@ -137,6 +144,9 @@ def script_from_state(m, sc, v, trail=None):
             if not steps or steps[-1].get('op') != 'settle':
                 steps.append({'op': 'settle'})
             continue
+    for k in sorted(pending_delivery):
+        steps.append(htlc_op(sc, specs[k], mdl))
+        steps.append({'op': 'settle'})
     return {'config': config, 'invoices': invoices, 'setup': setup, 'steps': steps,
             'model': {k: str(x) for k, x in mdl.items() if '!' not in k}}
 
@@ -219,7 +229,200 @@ def j_answered_while_paying(v, script, nat):
                 return True, 'htlcs %s answered before pay returned' % gone
     return False, 'all htlcs still held when pay returned'
 
+def _htlc_ops(script):
+    return dict((s['k'], s) for s in script['steps'] if s.get('op') == 'htlc')
+
+def fee_ok(script, total, amount):
+    p = script['config']['policy']
+    prod = amount * int(p['ppm'])
+    q = prod // 1000000
+    M = 2 ** 64 - 1
+    return prod <= M and int(p['base']) + q <= M and amount + int(p['base']) + q <= M and total >= amount + int(p['base']) + q
+
+def deliver_for(script, op):
+    inv = script['invoices'][op['invoice']] if op.get('invoice') is not None else None
+    if inv is None:
+        return None
+    if inv['amount'] is not None:
+        return int(inv['amount'])
+    if op.get('tlv_amount') is not None:
+        return int(op['tlv_amount'] or '0', 16)
+    return None
+
+def rejecting(script, op):
+    d = deliver_for(script, op)
+    if d is None:
+        return False
+    total = int(op['total']) if op.get('total') is not None else int(op['forward'] or 0)
+    return (not fee_ok(script, total, d)) or int(op['cltv_rel']) < int(script['config']['policy']['delta'])
+
+def j_pay_conflict(v, script, nat):
+    ops = _htlc_ops(script)
+    for e in _pay_events(nat):
+        held = [k for (_e, k) in e.get('held', [])]
+        if all(k in held for k in v.detail.get('htlcs', [])):
+            return True, 'pay issued while conflicting htlcs %s were held' % v.detail.get('htlcs')
+    return False, 'no pay call with the conflicting htlcs held'
+
+def j_pay_after_rejection(v, script, nat):
+    ops = _htlc_ops(script)
+    order = [e['k'] for e in nat.get('trace', []) if e.get('event') == 'htlc']
+    for e in _pay_events(nat):
+        held = [k for (_e, k) in e.get('held', [])]
+        for k in held:
+            op = ops[k]
+            before = [j for j in order[:order.index(k)] if j in held]
+            tot = sum(int(ops[j]['amount']) for j in before)
+            d = deliver_for(script, op)
+            if d is not None and rejecting(script, op) and not fee_ok(script, tot, d):
+                return True, 'pay issued although htlc %d was rejecting on an incomplete set' % k
+    return False, 'no pay after a rejection natively'
+
+def j_different(v, script, nat):
+    by_epoch = {}
+    for r in nat.get('responses', []):
+        by_epoch.setdefault(r['epoch'], []).append(json.dumps(r['response'], sort_keys=True))
+    for ep, rs in by_epoch.items():
+        if len(set(rs)) > 1:
+            return True, 'htlcs of one payment got different responses: %s' % sorted(set(rs))
+    if nat.get('still_waiting') and nat.get('responses'):
+        return True, 'some htlcs answered, others left waiting: %s' % nat.get('still_waiting')
+    return False, 'all responses equal natively'
+
+def policy_hex(script):
+    p = script['config']['policy']
+    return '201a%08x%08x%04x' % (int(p['base']), int(p['ppm']), int(p['delta']))
+
+def j_policy(v, script, nat):
+    k = v.detail.get('htlc', 0)
+    r = _resp(nat, k)
+    if r is None:
+        return False, 'htlc %s got no response natively' % k
+    msg = r.get('failure_message')
+    if v.kind == 'policy-not-carried':
+        if r.get('result') == 'fail' and msg and msg.startswith('201a') and msg != policy_hex(script):
+            return True, 'fee/expiry failure %s does not carry the policy %s' % (msg, policy_hex(script))
+        return False, 'response %s' % r
+    ops = _htlc_ops(script)
+    if rejecting(script, ops[k]) and not (r.get('result') == 'fail' and msg == policy_hex(script)):
+        return True, 'first htlc fails the gate but got %s' % r
+    return False, 'gate respected natively: %s' % r
+
+def j_expiry(v, script, nat):
+    ops = _htlc_ops(script)
+    cfg = script['config']
+    height = int(cfg['height'])
+    tr = nat.get('trace', [])
+    for i, e in enumerate(tr):
+        if e.get('event') == 'block':
+            height = int(e['height'])
+        if e.get('event') == 'rpc' and e.get('method') == 'pay':
+            held = [k for (_e, k) in e.get('held', [])]
+            mn = min(int(ops[k]['cltv']) for k in held) if held else 0
+            md = e['params'].get('maxdelay')
+            bound = max(0, mn - height - int(cfg['cltv_delta']))
+            if md is None or int(md) > bound or int(md) > int(cfg['policy']['delta']):
+                return True, 'maxdelay %s > bound %d (min expiry %d, height %d) or > policy delta' % (md, bound, mn, height)
+    return False, 'maxdelay within bounds natively'
+
+def j_foreign(v, script, nat):
+    ops = _htlc_ops(script)
+    for r in nat.get('responses', []):
+        op = ops.get(r['k'])
+        if op and op.get('hash') == 'other' and r['response'].get('result') == 'resolve':
+            return True, 'htlc %d (hash differs from the invoice) was resolved' % r['k']
+    for e in _pay_events(nat):
+        for (_e, k) in e.get('held', []):
+            if ops[k].get('hash') == 'other':
+                return True, 'invoice paid on behalf of htlc %d whose hash differs' % k
+    return False, 'no foreign settlement natively'
+
+def j_panic(v, script, nat):
+    if nat.get('task_panics') or nat.get('panics'):
+        return True, 'panic: %s' % (nat.get('task_panics') or nat.get('panics'))[:3]
+    return False, 'no panic natively'
+
+def j_hang(v, script, nat):
+    if nat.get('still_waiting'):
+        return True, 'htlcs %s never answered (pending calls %s, panics %s)' % (nat['still_waiting'], nat.get('pending_calls'), nat.get('task_panics'))
+    return False, 'everything answered natively'
+
+def _walk_parts(nat):
+    """Yield (event, parts status dict, running_pay?) along the native trace."""
+    parts = {}
+    running = False
+    for e in nat.get('trace', []):
+        if e.get('event') == 'part_created':
+            parts[e['id']] = 'pending'
+        elif e.get('event') == 'part':
+            parts[e['id']] = e['status']
+        elif e.get('event') == 'rpc':
+            for pid, stt in e.get('parts', []):
+                parts[pid] = stt
+            if e.get('method') == 'pay':
+                running = e.get('answer') is None
+        yield e, dict(parts), running
+
+def j_fail_while_live(v, script, nat):
+    for e, parts, running in _walk_parts(nat):
+        if e.get('event') == 'response' and e['response'].get('result') == 'fail':
+            live = [p for p, s in parts.items() if s in ('pending', 'complete')]
+            if live:
+                return True, 'htlc %d failed back while parts %s were pending/complete' % (e['k'], live)
+    return False, 'no fail while a part was live natively'
+
+def j_second_pay(v, script, nat):
+    for e, parts, running in _walk_parts(nat):
+        if e.get('event') == 'rpc' and e.get('method') == 'pay':
+            before = dict((pid, stt) for pid, stt in e.get('parts', []))
+            live = [p for p, s in before.items() if s in ('pending', 'complete')]
+            if live:
+                return True, 'pay issued while parts %s were pending/complete' % live
+    return False, 'no pay over a live attempt natively'
+
+def _state_of(rec):
+    s = rec.get('string', '')
+    if s.startswith('"Free"'):
+        return 'Free'
+    if 'Pending' in s:
+        return 'Pending'
+    if 'Succeeded' in s:
+        return 'Succeeded'
+    return 'garbled'
+
+def j_understates(v, script, nat):
+    for e, parts, running in _walk_parts(nat):
+        if e.get('event') == 'rpc':
+            live = [p for p, s in parts.items() if s in ('pending', 'complete')]
+            recs = e.get('state_records', [])
+            state = _state_of(recs[0]) if recs else 'absent'
+            if e.get('method') == 'pay' and state != 'Pending' and v.kind == 'pay-before-pending-record':
+                return True, 'pay issued with record %s' % state
+            if live and state not in ('Pending', 'Succeeded'):
+                return True, 'record %s while parts %s are live' % (state, live)
+    final = [p['id'] for p in nat.get('parts', []) if p['status'] in ('pending', 'complete')]
+    srecs = [d for d in nat.get('datastore', []) if d['key'][-1] == 'state']
+    fstate = _state_of(srecs[0]) if srecs else 'absent'
+    if final and fstate not in ('Pending', 'Succeeded'):
+        return True, 'final record %s while parts %s are live' % (fstate, final)
+    return False, 'record never understated natively'
+
 JUDGES = {
+    'pay-with-conflicting-info': j_pay_conflict,
+    'pay-after-rejection': j_pay_after_rejection,
+    'different-resolutions': j_different,
+    'listener-left-behind': j_different,
+    'policy-not-carried': j_policy,
+    'gate-not-enforced': j_policy,
+    'expiry-budget': j_expiry,
+    'resolve-with-foreign-preimage': j_foreign,
+    'pay-for-foreign-htlc': j_foreign,
+    'task-panic': j_panic,
+    'handler-never-answered': j_hang,
+    'failed-while-outgoing-live': j_fail_while_live,
+    'pay-while-attempt-live': j_second_pay,
+    'record-understates-payment': j_understates,
+    'pay-before-pending-record': j_understates,
     'pay-budget': j_pay_budget,
     'answered-while-paying': j_answered_while_paying,
 }
